@@ -221,9 +221,10 @@ def schedule(r, parties, weights, nsteps):
     for _ in range(nsteps):
         p = r.choices(names, weights=w, k=1)[0]
         s = p.step()
-        if s is not None:
-            s = dict(s, actor=p.name)
-            steps.append(s)
+        if isinstance(s, list):
+            steps.extend(dict(x, actor=p.name) for x in s)
+        elif s is not None:
+            steps.append(dict(s, actor=p.name))
     return steps
 
 
